@@ -223,6 +223,23 @@ class FactDB:
                 cands = [m for m in (members or []) if "d" in m and pred(((m.get("t") or {}).get("c") or ""))]
                 if len(cands) == 1 and cands[0]["n"] != canon and not any(m["n"] == canon for m in (r.get("fields") or []) + (r.get("svars") or [])):
                     ren[cands[0]["d"]] = (cands[0]["n"], canon)
+        # a static bookkeeping member that was moved out of its class into a helper struct (rlbox::detail::registry<T>::entries):
+        # the same role, identified by type, in whichever rlbox:: record now holds it - if exactly one (record, member) does
+        for rec, kind, pred, canon in self.ROLES:
+            if kind != "svar":
+                continue
+            if any(m["n"] == canon for r in self.records for m in (r.get("svars") or [])) or any(v[1] == canon for v in ren.values()):
+                continue
+            cands = {}
+            for r in self.records:
+                if not (r.get("n") or "").startswith("rlbox::") or r["n"] == rec:
+                    continue
+                for m in (r.get("svars") or []):
+                    if "d" in m and pred(((m.get("t") or {}).get("c") or "")):
+                        cands.setdefault((r["n"], m["n"]), []).append(m)
+            if len(cands) == 1:
+                for m in next(iter(cands.values())):
+                    ren[m["d"]] = (m["n"], canon)
         # the bundled backends' slot tables: two arrays of the same type, told apart by what impl_register_callback(key, callback)
         # stores into them (first parameter -> key table, second parameter -> entry-point table)
         def strip_(o):
